@@ -896,8 +896,13 @@ impl<'l> CelCompiler<'l> {
                     ),
                 ))
             }
-            _ => {
-                let start_loc = self.tokenizer.location();
+            other => {
+                // the empty list sits right before the look-ahead token; the scanner
+                // itself is already past that token
+                let start_loc = match other {
+                    Some(next_token) => next_token.loc.start(),
+                    None => self.tokenizer.location(),
+                };
                 Ok((
                     CompiledProg::empty(),
                     AstNode::new(NotList::EmptyList, SourceRange::new(start_loc, start_loc)),
@@ -932,8 +937,13 @@ impl<'l> CelCompiler<'l> {
                     ),
                 ))
             }
-            _ => {
-                let start_loc = self.tokenizer.location();
+            other => {
+                // the empty list sits right before the look-ahead token; the scanner
+                // itself is already past that token
+                let start_loc = match other {
+                    Some(next_token) => next_token.loc.start(),
+                    None => self.tokenizer.location(),
+                };
                 Ok((
                     CompiledProg::empty(),
                     AstNode::new(NegList::EmptyList, SourceRange::new(start_loc, start_loc)),
